@@ -45,16 +45,18 @@ func (fsm *LFSM) Update(entries []dbsm.Entry) ([]dbsm.Entry, error) {
 			return entries, fmt.Errorf("invalid entry %#v, %w", ent, err)
 		}
 
-		if v, err := fsm.store.Get(update.KVPair.Key); err == nil {
-			// Reject entries with mismatched versions
-			if v.Ver != update.KVPair.Ver {
-				data, _ := json.Marshal(v)
-				entries[i].Result = dbsm.Result{
-					Value: ResultCodeVersionMismatch,
-					Data:  data,
-				}
-				continue
+		// Reject entries with mismatched versions, a key that does not exist has version 0.
+		v, err := fsm.store.Get(update.KVPair.Key)
+		if err != nil {
+			v = Pair{Key: update.KVPair.Key}
+		}
+		if v.Ver != update.KVPair.Ver {
+			data, _ := json.Marshal(v)
+			entries[i].Result = dbsm.Result{
+				Value: ResultCodeVersionMismatch,
+				Data:  data,
 			}
+			continue
 		}
 		update.KVPair.Ver = ent.Index
 		switch update.Op {
